@@ -2,6 +2,7 @@ import QipVerif.Lemmas.QasmExportSem
 import QipVerif.Lemmas.QasmMat
 import QipVerif.Lemmas.QasmExportTop
 import QipVerif.Lemmas.QasmRoundtrip
+import QipVerif.Lemmas.QasmExportPad
 /-!
 # C10 — exported OpenQASM is valid OpenQASM 2.0 and denotes the same circuit
 
@@ -10,11 +11,22 @@ Property theorems only.  `Export.exportCircuit` is the model of the exporter
 `parseLines` / `acceptProgram` / `flatten` are the strict recogniser and the static semantics
 of OpenQASM 2.0 written from the language paper (`Model/QasmSpec.lean`).
 
+The exporter prints each parameter with `_qasm_real` where the source has it (flag
+`Gen.exportPadsExponent`, regenerated): `exportCircuit c = exportCore c.out`, `c.out` being the
+circuit with every number replaced by the text that is printed (`c.out = c` on a tree without
+`_qasm_real`, `Circuit.out_eq_self`).  The theorems are stated for both variants: the class is a
+condition on the *printed* circuit (`GoodCircuit c.out`: every printed number is one numeric token
+of the standard), the unitary is that of the *original* values (`denX … c.ops`; printing keeps
+the value of every number, `litVal_padExp`).
+
 The full statement of the property ("every circuit is refused or exported as valid text with
 the same meaning") does not hold for the code: a measurement is exported without its `;`
-(`export_measure_counterexample`) and a parameter that Python prints without a decimal point
-(`1e-20`) is not a `real` of the standard (`export_exponent_counterexample`).  Both are
-recorded findings; `export_valid_partial` states the property on the remaining class.
+(`export_measure_counterexample`, recorded finding), and — on a tree without `_qasm_real` — a
+parameter that Python prints without a decimal point (`1e-20`) is not a `real` of the standard
+(`export_exponent_counterexample`).  With `_qasm_real` the second restriction is gone:
+`export_valid_pynum_partial` covers every finite `int` / `float` Python can print
+(`export_exponent_repaired` is the former witness).  `export_valid_partial` states the property on
+the class of circuits whose printed numbers are tokens, for both variants.
 -/
 namespace QipVerif.C10
 open QipVerif.Qasm QipVerif.Qasm.Export Matrix
@@ -32,37 +44,83 @@ lines such that
   `qelib1.inc` or by an emitted definition — with the right arity);
 * under that semantics `P` is exactly the sequence of calls
   `qasmName(params) controls++targets` of the circuit, on a register of `c.N` qubits. -/
-theorem export_valid_partial (c : Circuit) (hc : GoodCircuit c) :
+theorem export_valid_partial (c : Circuit) (hc : GoodCircuit c.out) :
     ∃ lines P, exportCircuit c = .ok lines ∧ parseLines lines = some P ∧ headerOk P = true ∧
-      flatten P = .ok (finalEnv c, c.ops.filterMap flatOfOp) ∧ (finalEnv c).qregs.total = c.N ∧
+      flatten P = .ok (finalEnv c.out, c.out.ops.filterMap flatOfOp) ∧ (finalEnv c.out).qregs.total = c.N ∧
       acceptProgram lines = true := by
-  obtain ⟨lines, h1, h2⟩ := export_parse c hc
-  have h3 := flatten_programOf c hc
-  have h4 := headerOk_programOf c
-  refine ⟨lines, programOf c, h1, h2, h4, h3, rfl, ?_⟩
+  obtain ⟨lines, h1, h2⟩ := export_parse c.out hc
+  have h3 := flatten_programOf c.out hc
+  have h4 := headerOk_programOf c.out
+  refine ⟨lines, programOf c.out, h1, h2, h4, h3, rfl, ?_⟩
   simp [acceptProgram, h2, h4, h3]
 
 /-- the class is not empty and contains the formerly defective inputs: `RX(0)`, a tuple-valued
-`QASMU`, `SQRTNOT`, controlled rotations, negative and large parameters -/
-example : GoodCircuit ⟨3, 0, [
+`QASMU`, `SQRTNOT`, controlled rotations, negative and large parameters (texts that are printed
+as they are, with or without `_qasm_real`) -/
+example : GoodCircuit (Circuit.out ⟨3, 0, [
     .gate ⟨cs!"RX", some [0], none, .num ⟨false, cs!"0"⟩, none⟩,
     .gate ⟨cs!"QASMU", some [2], none, .seq cs!"tuple" cs!"(0.1, 0.2, 0.3)"
       [⟨false, cs!"0.1"⟩, ⟨true, cs!"0.0"⟩, ⟨false, cs!"1.5e+20"⟩], none⟩,
     .gate ⟨cs!"SQRTNOT", some [1], none, .none, some []⟩,
     .gate ⟨cs!"CRX", some [1], some [2], .num ⟨true, cs!"3.141592653589793"⟩, none⟩,
-    .gate ⟨cs!"TOFFOLI", some [0], some [2, 1], .none, none⟩]⟩ := by
+    .gate ⟨cs!"TOFFOLI", some [0], some [2, 1], .none, none⟩]⟩) := by
+  rw [show Circuit.out _ = (⟨3, 0, [
+    .gate ⟨cs!"RX", some [0], none, .num ⟨false, cs!"0"⟩, none⟩,
+    .gate ⟨cs!"QASMU", some [2], none, .seq cs!"tuple" cs!"(0.1, 0.2, 0.3)"
+      [⟨false, cs!"0.1"⟩, ⟨true, cs!"0.0"⟩, ⟨false, cs!"1.5e+20"⟩], none⟩,
+    .gate ⟨cs!"SQRTNOT", some [1], none, .none, some []⟩,
+    .gate ⟨cs!"CRX", some [1], some [2], .num ⟨true, cs!"3.141592653589793"⟩, none⟩,
+    .gate ⟨cs!"TOFFOLI", some [0], some [2, 1], .none, none⟩]⟩ : Circuit) from by decide]
   intro op hop
   simp only [List.mem_cons, List.not_mem_nil, or_false] at hop
   rcases hop with rfl | rfl | rfl | rfl | rfl <;>
     exact ⟨_, rfl, ⟨by decide, by decide, by decide, by decide, by decide, by decide, by decide⟩⟩
+
+/-- **Validity of the exported text for every number Python prints (source with `_qasm_real`;
+partial: gates only).**  If `_qasm_str` prints its parameters with `_qasm_real`
+(`Gen.exportPadsExponent`, read from the source), the hypothesis "every printed parameter is a
+numeric token" of `export_valid_partial` is not needed: for every circuit of exportable gates with
+well-formed controls / targets / parameters whose parameters are finite `int`s or `float`s —
+`isPyOut` on the text Python gives, **before** `_qasm_real` pads it: `3`, `0.25`, `1.5e-07`, but also
+`1e-20`, `5e-324`, `1e+20` — the exporter returns a text that the strict recogniser accepts line
+by line, whose static semantics is the circuit's sequence of calls on a `c.N`-qubit register.
+What keeps the suffix `_partial`: measurements stay outside the class
+(`export_measure_counterexample`). -/
+theorem export_valid_pynum_partial (hfix : Gen.exportPadsExponent = true) (c : Circuit) (hc : PyCircuit c) :
+    ∃ lines P, exportCircuit c = .ok lines ∧ parseLines lines = some P ∧ headerOk P = true ∧
+      flatten P = .ok (finalEnv c.out, c.out.ops.filterMap flatOfOp) ∧ (finalEnv c.out).qregs.total = c.N ∧
+      acceptProgram lines = true :=
+  export_valid_partial c (goodCircuit_out_of_py hfix hc)
+
+/-- the class of `export_valid_pynum_partial` contains the parameters the old exporter printed as
+invalid text: `1e-20`, `-5e-324`, `1e+20` inside a tuple -/
+example : PyCircuit ⟨3, 0, [
+    .gate ⟨cs!"RX", some [0], none, .num ⟨false, cs!"1e-20"⟩, none⟩,
+    .gate ⟨cs!"QASMU", some [2], none, .seq cs!"tuple" cs!"(1e+20, -0.0, 1.5e-07)"
+      [⟨false, cs!"1e+20"⟩, ⟨true, cs!"0.0"⟩, ⟨false, cs!"1.5e-07"⟩], none⟩,
+    .gate ⟨cs!"CRY", some [1], some [2], .num ⟨true, cs!"5e-324"⟩, none⟩,
+    .gate ⟨cs!"RZ", some [1], none, .num ⟨false, cs!"3"⟩, none⟩]⟩ := by
+  intro op hop
+  simp only [List.mem_cons, List.not_mem_nil, or_false] at hop
+  rcases hop with rfl | rfl | rfl | rfl <;>
+    exact ⟨_, rfl, ⟨by decide, by decide, by decide, by decide, by decide, by decide, by decide⟩⟩
+
+/-- … and the unitary of that text is the circuit's (`export_den` under the same hypotheses) -/
+theorem export_den_pynum_partial (hfix : Gen.exportPadsExponent = true) (c : Circuit) (hc : PyCircuit c) :
+    ∃ lines P ops A B, exportCircuit c = .ok lines ∧ parseLines lines = some P ∧
+      denote P = .ok (c.N, (cregsOf c.numCbits).total, ops) ∧
+      denOps c.N ops = some A ∧ denX c.N (c.ops.filterMap xOfOp) = some B ∧ PhaseEqN A B := by
+  obtain ⟨lines, P, ops, A, B, h1, h2, h3, h4, h5, h6⟩ := export_den_ops c.out (goodCircuit_out_of_py hfix hc)
+  exact ⟨lines, P, ops, A, B, h1, h2, h3, h4, by rw [← filterMap_xOfOp_out]; exact h5, h6⟩
 
 /-- **Refusal.** A circuit containing a gate that has neither a QASM name nor an emitted
 definition is not exported: the exporter raises. -/
 theorem export_refuses (c : Circuit) (g : Export.Gate) (hg : Op.gate g ∈ c.ops)
     (hb : lookup Gen.gateNameToQasm g.name = none) (hd : lookup Gen.qasmDefns g.name = none) :
     ∃ e, exportCircuit c = .error e := by
-  obtain ⟨e, he⟩ := defsLoop_refuses c.ops Gen.gateNameToQasm (fun k hk => Or.inl hk) g hg hb hd
-  exact ⟨e, by simp [exportCircuit, he]⟩
+  obtain ⟨e, he⟩ := defsLoop_refuses c.out.ops Gen.gateNameToQasm (fun k hk => Or.inl hk) g.out
+    (List.mem_map.mpr ⟨_, hg, rfl⟩) hb hd
+  exact ⟨e, by simp [exportCircuit, exportCore, he]⟩
 
 example : ∃ e, exportCircuit ⟨2, 0, [.gate ⟨cs!"X", some [0], none, .none, none⟩,
     .gate ⟨cs!"ISWAP", some [0, 1], none, .none, none⟩]⟩ = .error e :=
@@ -70,7 +128,7 @@ example : ∃ e, exportCircuit ⟨2, 0, [.gate ⟨cs!"X", some [0], none, .none,
 
 /-- A classically controlled gate is refused as well. -/
 theorem export_refuses_classical :
-    exportCircuit ⟨1, 1, [.gate ⟨cs!"X", some [0], none, .none, some [0]⟩]⟩ = .error .notImpl := rfl
+    exportCircuit ⟨1, 1, [.gate ⟨cs!"X", some [0], none, .none, some [0]⟩]⟩ = .error .notImpl := by decide
 
 /-! ### The auxiliary gate definitions the exporter emits -/
 
@@ -118,28 +176,38 @@ circuit IR (`denG`, Lemmas/Sem.lean) extended by `QASMU` (generated matrix `Gen.
 see `export_den_G` for circuits without `QASMU`.  Proof: naturality of the standard's expansion
 in qubits and parameters + localisation (`denP_relabel`) + the per-definition identities
 (`definitions_sound`, C04 `shortcut_sound`) transported to the embedding algebra. -/
-theorem export_den (c : Circuit) (hc : GoodCircuit c) :
+theorem export_den (c : Circuit) (hc : GoodCircuit c.out) :
     ∃ lines P ops A B, exportCircuit c = .ok lines ∧ parseLines lines = some P ∧
       denote P = .ok (c.N, (cregsOf c.numCbits).total, ops) ∧
-      denOps c.N ops = some A ∧ denX c.N (c.ops.filterMap xOfOp) = some B ∧ PhaseEqN A B :=
-  export_den_ops c hc
+      denOps c.N ops = some A ∧ denX c.N (c.ops.filterMap xOfOp) = some B ∧ PhaseEqN A B := by
+  obtain ⟨lines, P, ops, A, B, h1, h2, h3, h4, h5, h6⟩ := export_den_ops c.out hc
+  exact ⟨lines, P, ops, A, B, h1, h2, h3, h4, by rw [← filterMap_xOfOp_out]; exact h5, h6⟩
 
 /-- **… in terms of the circuit IR.**  For a circuit of the class without `QASMU`, let `irList c.ops 0`
 be its gates in the circuit IR (`QipVerif.Gate`: same names, controls, targets; the parameter of the
 gate at position `i` is the symbol `i`) and `ρ` any valuation giving each symbol the value of that
 parameter.  Then the unitary of the exported program equals `denG c.N ρ (irList c.ops 0)` — the
 specification object of C01/C03/C07/C13 — up to one global phase. -/
-theorem export_den_G (c : Circuit) (hc : GoodCircuit c)
+theorem export_den_G (c : Circuit) (hc : GoodCircuit c.out)
     (hq : ∀ g, Op.gate g ∈ c.ops → g.name ≠ cs!"QASMU")
     (ρ : ℕ → ℝ) (hρ : ∀ i, i < c.ops.length → ρ i = paramAt c.ops i) :
     ∃ lines P ops A B, exportCircuit c = .ok lines ∧ parseLines lines = some P ∧
       denote P = .ok (c.N, (cregsOf c.numCbits).total, ops) ∧
       denOps c.N ops = some A ∧ denG c.N ρ (irList c.ops 0) = some B ∧ PhaseEqN A B := by
-  obtain ⟨lines, P, ops, A, B, h1, h2, h3, h4, h5, h6⟩ := export_den_ops c hc
+  obtain ⟨lines, P, ops, A, B, h1, h2, h3, h4, h5, h6⟩ := export_den_ops c.out hc
+  have key : denX c.N (c.out.ops.filterMap xOfOp) = denG c.N ρ (irList c.out.ops 0) :=
+    denX_irList c.N ρ c.out.ops 0 (fun op hop => by
+      obtain ⟨g, rfl, hg⟩ := hc op hop
+      obtain ⟨g', hg', rfl⟩ := mem_out hop
+      exact ⟨g'.out, rfl, hg, hq g' hg'⟩) (fun i hi => by
+      have hi' : i < c.ops.length := by simpa [Circuit.out] using hi
+      have := hρ i hi'
+      rw [← paramAt_out] at this
+      rw [Nat.zero_add]
+      exact this)
+  have e : irList c.out.ops 0 = irList c.ops 0 := irList_out c.ops 0
   refine ⟨lines, P, ops, A, B, h1, h2, h3, h4, ?_, h6⟩
-  rw [← denX_irList c.N ρ c.ops 0 (fun op hop => by
-    obtain ⟨g, rfl, hg⟩ := hc op hop
-    exact ⟨g, rfl, hg, hq g hop⟩) (fun i hi => by simpa using hρ i hi)]
+  rw [← e, ← key]
   exact h5
 
 /-- **Export, then import: the same unitary (partial: circuits without emitted definitions).**
@@ -152,22 +220,30 @@ gates — the unitary of the original circuit up to ONE global phase, on every r
 Circuits that need an emitted definition (`SWAP SQRTNOT CS CT CRX CRY`) are re-imported as user gates;
 their round trip is covered by the per-definition theorems `definitions_sound` / `export_den` and by
 C04's user-gate correspondence, not by this theorem. -/
-theorem roundtrip_den_partial (c : Circuit) (hc : GoodCircuit c) (hN : 0 < c.N)
+theorem roundtrip_den_partial (c : Circuit) (hc : GoodCircuit c.out) (hN : 0 < c.N)
     (hb : addedNames c.ops Gen.gateNameToQasm = []) :
     ∃ lines P iops A B, exportCircuit c = .ok lines ∧ parseLines lines = some P ∧
       Import.importProgram P = .ok (c.N, (cregsOf c.numCbits).total, iops) ∧
       denX c.N (c.ops.filterMap xOfOp) = some A ∧ denX c.N (iops.filterMap Import.xOfIOp) = some B ∧
-      PhaseEqN B A :=
-  roundtrip_den_base c hc hN hb
+      PhaseEqN B A := by
+  obtain ⟨lines, P, iops, A, B, h1, h2, h3, h4, h5, h6⟩ :=
+    roundtrip_den_base c.out hc hN (by simpa [Circuit.out, addedNames_out] using hb)
+  exact ⟨lines, P, iops, A, B, h1, h2, h3, by rw [← filterMap_xOfOp_out]; exact h4, h5, h6⟩
 
 /-- the hypotheses of `roundtrip_den_partial` are satisfiable -/
-example : ∃ c : Circuit, GoodCircuit c ∧ 0 < c.N ∧ addedNames c.ops Gen.gateNameToQasm = [] :=
+example : ∃ c : Circuit, GoodCircuit c.out ∧ 0 < c.N ∧ addedNames c.ops Gen.gateNameToQasm = [] :=
   ⟨⟨3, 0, [
     .gate ⟨cs!"RX", some [0], none, .num ⟨false, cs!"0.25"⟩, none⟩,
     .gate ⟨cs!"QASMU", some [2], none, .seq cs!"tuple" cs!"(0.1, 0.2, 0.3)"
       [⟨false, cs!"0.1"⟩, ⟨true, cs!"0.0"⟩, ⟨false, cs!"1.5e+20"⟩], none⟩,
     .gate ⟨cs!"CRZ", some [1], some [2], .num ⟨true, cs!"3.141592653589793"⟩, none⟩,
     .gate ⟨cs!"TOFFOLI", some [0], some [2, 1], .none, none⟩]⟩, by
+    rw [show Circuit.out _ = (⟨3, 0, [
+      .gate ⟨cs!"RX", some [0], none, .num ⟨false, cs!"0.25"⟩, none⟩,
+      .gate ⟨cs!"QASMU", some [2], none, .seq cs!"tuple" cs!"(0.1, 0.2, 0.3)"
+        [⟨false, cs!"0.1"⟩, ⟨true, cs!"0.0"⟩, ⟨false, cs!"1.5e+20"⟩], none⟩,
+      .gate ⟨cs!"CRZ", some [1], some [2], .num ⟨true, cs!"3.141592653589793"⟩, none⟩,
+      .gate ⟨cs!"TOFFOLI", some [0], some [2, 1], .none, none⟩]⟩ : Circuit) from by decide]
     intro op hop
     simp only [List.mem_cons, List.not_mem_nil, or_false] at hop
     rcases hop with rfl | rfl | rfl | rfl <;>
@@ -184,11 +260,37 @@ theorem export_measure_counterexample :
       acceptProgram lines = false := by
   refine ⟨_, rfl, by decide, by decide, by decide⟩
 
-/-- `RX(1e-20)`: Python prints the parameter as `1e-20`, which is not a `real` of the
-standard's grammar (a decimal point is mandatory); the text is emitted and rejected. -/
-theorem export_exponent_counterexample :
+/-- `RX(1e-20)` on a tree **without** `_qasm_real`: Python prints the parameter as `1e-20`, which
+is not a `real` of the standard's grammar (a decimal point is mandatory); the text is emitted and
+rejected.  (On a tree with `_qasm_real` the hypothesis is false and the statement is empty; see
+`export_exponent_repaired`.) -/
+theorem export_exponent_counterexample : Gen.exportPadsExponent = false →
     ∃ lines, exportCircuit ⟨1, 0, [.gate ⟨cs!"RX", some [0], none, .num ⟨false, cs!"1e-20"⟩, none⟩]⟩ = .ok lines ∧
       cs!"rx(1e-20) q[0];" ∈ lines ∧ isNumToken cs!"1e-20" = false ∧ acceptProgram lines = false := by
-  refine ⟨_, rfl, by decide, by decide, by decide⟩
+  intro h
+  rw [exportCircuit, Circuit.out_eq_self h]
+  exact ⟨_, rfl, by decide, by decide, by decide⟩
+
+/-- `RX(1e-20)` on a tree **with** `_qasm_real`: the parameter is written `1.0e-20`, a `real` of the
+standard, and the whole text is accepted.  (On a tree without `_qasm_real` the hypothesis is false;
+see `export_exponent_counterexample`.) -/
+theorem export_exponent_repaired : Gen.exportPadsExponent = true →
+    ∃ lines, exportCircuit ⟨1, 0, [.gate ⟨cs!"RX", some [0], none, .num ⟨false, cs!"1e-20"⟩, none⟩]⟩ = .ok lines ∧
+      cs!"rx(1.0e-20) q[0];" ∈ lines ∧ isNumToken cs!"1.0e-20" = true ∧ acceptProgram lines = true := by
+  intro h
+  have e : Circuit.out ⟨1, 0, [.gate ⟨cs!"RX", some [0], none, .num ⟨false, cs!"1e-20"⟩, none⟩]⟩ =
+      ⟨1, 0, [.gate ⟨cs!"RX", some [0], none, .num ⟨false, padExp cs!"1e-20"⟩, none⟩]⟩ := by
+    simp [Circuit.out, Op.out, Gate.out, ArgVal.out, Num.out, h]
+  rw [exportCircuit, e]
+  exact ⟨_, rfl, by decide, by decide, by decide⟩
+
+/-- exactly one of the two statements above has a true hypothesis -/
+example : Gen.exportPadsExponent = false ∨ Gen.exportPadsExponent = true := by decide
+
+/-- `_qasm_real` on texts: what is padded and what is not (independent of the tree) -/
+example : padExp cs!"1e-20" = cs!"1.0e-20" ∧ padExp cs!"5e-324" = cs!"5.0e-324" ∧
+    padExp cs!"1e+20" = cs!"1.0e+20" ∧ padExp cs!"1.5e-07" = cs!"1.5e-07" ∧ padExp cs!"0.25" = cs!"0.25" ∧
+    padExp cs!"3" = cs!"3" ∧ padExp cs!"inf" = cs!"inf" ∧ padExp cs!"(1e-20, 2)" = cs!"(1e-20, 2)" := by
+  decide
 
 end QipVerif.C10
